@@ -10,8 +10,13 @@ Part 2 (data).  `MethodEff` / `ClassEff` are what `tools/effects/extract.py` emi
 anchored classes (lean/FinVerif/Gen/Effects.lean, regenerated from /repo on every run), and the decidable
 discipline check that is evaluated on that data.
 
+Part 3 (state machines).  Small hand models of the named mechanisms, as the code is NOW (after the repairs
+247d001, 53a2a33, b2f138f, 5c33524, 4de3863): Calendar cache, tree models, curve build flag, BlackScholes dispatch,
+Bond previous/next coupon dates, cap/floor day counter, the deposits list, key-rate shifting.
+
 Mathlib-free.
 -/
+import FinVerif.Gen.Calendar
 
 namespace FinVerif.C18
 
@@ -130,5 +135,95 @@ def otherGlobals (cs : List ClassEff) : List (String × String × String) :=
   cs.flatMap fun c => c.methods.flatMap fun m =>
     (((m.gwrites.map ("write " ++ ·)) ++ (m.greads.map ("read " ++ ·))).filter
       (fun g => !(dateTableGlobals.any (fun t => g.endsWith t)))).map fun g => (c.name, m.name, g)
+
+/-! ## Part 3 — state machines of the named mechanisms (the code as it is now) -/
+
+/-- `IborSingleCurve.build_curve` is a no-op once the curve is built -/
+structure CurveState where
+  built : Bool
+  tables : Nat
+  deriving DecidableEq, Repr
+
+def buildCurve (fit : Nat) (s : CurveState) : CurveState := if s.built then s else ⟨true, fit⟩
+
+/-- the Calendar object caches the weekday and the day in the year; −1 stands for Python's `None` -/
+structure CalState where
+  wd : Int
+  diy : Int
+
+def CalState.fresh : CalState := ⟨-1, -1⟩
+
+/-- `Calendar.is_holiday(dt)` for the US calendar: store, then dispatch (rule GENERATED from calendar.py) -/
+def isHolidayUS (s : CalState) (m d y wd diy : Int) : Bool × CalState :=
+  let s' : CalState := ⟨wd, diy⟩
+  (Gen.Calendar.holiday_united_states m d y s'.wd s'.diy, s')
+
+/-- `Calendar.holiday_united_states(dt)` called directly: reads whatever the last `is_holiday` left -/
+def holidayUSDirect (s : CalState) (m d y : Int) : Bool := Gen.Calendar.holiday_united_states m d y s.wd s.diy
+
+/-- a tree model as `BondEmbeddedOption.value` uses it -/
+structure TreeModel where
+  numSteps : Nat
+  tree : Option (Nat × Nat)
+
+def TreeModel.build (m : TreeModel) (arg : Nat) : TreeModel := { m with tree := some (m.numSteps, arg) }
+def TreeModel.query (f : Nat × Nat → Nat → Nat) (m : TreeModel) (x : Nat) : Option Nat := m.tree.map (fun t => f t x)
+
+/-- build; query; `num_time_steps += 1`; build; query; `num_time_steps -= 1` -/
+def embeddedValue (f : Nat × Nat → Nat → Nat) (m : TreeModel) (arg x : Nat) : (Option Nat × Option Nat) × TreeModel :=
+  let m1 := m.build arg
+  let v1 := m1.query f x
+  let m2 := { m1 with numSteps := m1.numSteps + 1 }
+  let m3 := m2.build arg
+  let v2 := m3.query f x
+  ((v1, v2), { m3 with numSteps := m3.numSteps - 1 })
+
+inductive BsType | DEFAULT | ANALYTICAL | CRR_TREE | BARONE_ADESI | LSMC | BJERKSUND | FD | PSOR
+  deriving DecidableEq, Repr
+inductive Fam | european | american
+  deriving DecidableEq, Repr
+inductive Engine | analytical | crr | baw | lsmc | bjerksund | fd | psor | notAvailable
+  deriving DecidableEq, Repr
+
+/-- `BlackScholes.value` (after 247d001): DEFAULT is resolved in a LOCAL variable; returns the engine that prices
+the option and `self.bs_type` afterwards (unchanged) -/
+def bsValue (t : BsType) : Fam → Engine × BsType
+  | .european =>
+    let l := if t = .DEFAULT then .ANALYTICAL else t
+    (match l with
+      | .ANALYTICAL => .analytical | .CRR_TREE => .crr | .FD => .fd | .PSOR => .psor | .LSMC => .lsmc
+      | _ => .notAvailable, t)
+  | .american =>
+    let l := if t = .DEFAULT then .CRR_TREE else t
+    (match l with
+      | .BARONE_ADESI => .baw | .CRR_TREE => .crr | .LSMC => .lsmc | .BJERKSUND => .bjerksund | .FD => .fd | .PSOR => .psor
+      | _ => .notAvailable, t)
+
+def bsAfter (t : BsType) (hist : List Fam) : BsType := hist.foldl (fun t f => (bsValue t f).2) t
+
+/-- `Bond._calc_pcd_ncd` (after 53a2a33): the first coupon date after `settle` and its predecessor are assigned;
+when no coupon date follows, `pcd`/`ncd` are cleared and FinError is raised (`none`).  `st` is what the previous
+call left; `prev` the date before the list element under inspection. -/
+def calcPcdNcd : Int → List Int → Int → Option (Int × Int) → Option (Int × Int)
+  | _, [], _, _ => none
+  | prev, c :: rest, settle, st => if c > settle then some (prev, c) else calcPcdNcd c rest settle st
+
+/-- `IborCapFloor` (after 5c33524): the constructor creates the day counter from `dc_type`; `value()` re-creates the
+same; `value_caplet_floor_let` reads it -/
+def capCtor (dcType : Nat) : Option Nat := some dcType
+def capValue (_dc : Option Nat) (dcType : Nat) : Option Nat := some dcType
+def capletDirect (dc : Option Nat) : Option Nat := dc
+
+/-- `IborSingleCurve._validate_inputs` (after 4de3863) on the deposit start dates: returns (the caller's list
+afterwards, the list the curve uses) -/
+def validateDeposits (valueDt swapStart : Int) (depoStarts : List Int) : List Int × List Int :=
+  match depoStarts with
+  | [] => ([], [])
+  | d :: rest => (d :: rest, if swapStart > valueDt ∧ d > valueDt then valueDt :: d :: rest else d :: rest)
+
+/-- `Bond.key_rate_durations` (after b2f138f): the shifting runs on a copy; returns (the caller's rates afterwards,
+the working copy at the end) -/
+def krdRatesAfter (shift : Int) (rates : List Int) : List Int × List Int :=
+  (rates, rates.map (fun r => r + shift - 2 * shift))
 
 end FinVerif.C18
